@@ -162,6 +162,23 @@ def sweep_arith(acc, signed, maxw):
 def sweep_ctor(acc, signed, maxw):
     name = "SFixed" if signed else "UFixed"
     fs = formats(maxw)
+    # wide formats: representable INTEGERS beyond 2**53 (not exactly representable as IEEE doubles)
+    grp = f"ctor:{name}(wide int)"
+    for (l, r, raws) in ((62, 0, (2**61 + 1, 2**55 + 3)), (60, 2, (2**54 + 1, 2**57 - 1)), (56, -2, (2**53 + 1,))):
+        T = (std.SFixed if signed else std.UFixed)[l:r]
+        for raw in raws:
+            v = raw * 2**r if r >= 0 else Fraction(raw, 2**-r)
+            if v.denominator != 1 if isinstance(v, Fraction) else False:
+                continue
+            try:
+                x = T(int(v))
+            except AssertionError:
+                acc.fail(grp, grp + "/rejects-representable", f"{name}[{l}:{r}]({int(v)}) is rejected")
+                continue
+            if raw_of(x) != raw:
+                acc.fail(grp, grp, f"{name}[{l}:{r}]({int(v)}) has raw value {raw_of(x)}, expected {raw} (difference {raw_of(x) - raw})")
+            else:
+                acc.ok(grp)
     for (l, r) in fs:
         T = (std.SFixed if signed else std.UFixed)[l:r]
         lo, hi = raw_range(signed, l, r)
@@ -200,6 +217,21 @@ def sweep_ctor(acc, signed, maxw):
                         acc.fail(grp, grp, f"{name}[{l}:{r}](raw={raw}): == {arg!r} -> {e1}, == same raw -> {e2}, == different raw -> {e3}")
                     else:
                         acc.ok(grp)
+                    # "equality compares represented numbers": a number that lies strictly BETWEEN two representable
+                    # ones is equal to none of them (it must not be truncated to the format first)
+                    for between in (v + Fraction(2) ** r / 2, v - Fraction(2) ** r / 4):
+                        if not (Fraction(lo) * Fraction(2) ** r <= between <= Fraction(hi) * Fraction(2) ** r):
+                            continue
+                        grp2 = f"eq:{name}(non-representable number)"
+                        try:
+                            eb = bool(x == float(between))
+                        except AssertionError:
+                            acc.ok(grp2)
+                            continue
+                        if eb:
+                            acc.fail(grp2, grp2, f"{name}[{l}:{r}](raw={raw}, value={float(v)}) == {float(between)} is True")
+                        else:
+                            acc.ok(grp2)
         # in-between floats (not representable): truncation toward zero of int(val / 2**exp) is what the code does;
         # the property only speaks about representable numbers -> not checked
         # Signed / Unsigned sources
